@@ -57,7 +57,12 @@ def mkdirp(d):
     try:
         os.makedirs(d)
     except OSError as e:
-        if e.errno != errno.EEXIST:
+        if e.errno == errno.ENOENT:
+            # A parent directory created by makedirs has been deleted before
+            # its child could be created (e.g. another process is clearing a
+            # cache that lives there): try once more.
+            os.makedirs(d, exist_ok=True)
+        elif e.errno != errno.EEXIST:
             raise
 
 
